@@ -19,9 +19,10 @@ def ok_new(j):
 
 
 KINDS = {
-    "unparseable-source": (b"package p\n\nfunc f( {\n", "could not parse", None),
-    "rewrite-error": (b"package p\n\nfunc f() {\n\tfoo()\n}\n", "could not update", "metavariable"),
-    "unparseable-result": (b"package p\n\nvar y bad\n", "reformat", None),
+    # the cause fragments are the libraries' own words (go/parser, the OS), not gopatch's wrapping, whose wording is free
+    "unparseable-source": (b"package p\n\nfunc f( {\n", "expected", None),
+    "rewrite-error": (b"package p\n\nfunc f() {\n\tfoo()\n}\n", None, None),
+    "unparseable-result": (b"package p\n\nvar y bad\n", "expected", None),
     "unreadable": (ok_src(9), "permission denied", None),
     "write-fails": (ok_src(9), "permission denied", None),
 }
@@ -193,8 +194,13 @@ def main():
         err = ob["stderr"].decode("utf-8", "replace")
         if bad_path not in err and ("d%d/f.go" % pos) not in err:
             ck.violation("%s at position %d: stderr does not name the failing file: %r" % (kind, pos, err[:300]), rep)
-        elif frag not in err or (frag2 and frag2 not in err):
+        elif (frag and frag not in err) or (frag2 and frag2 not in err):
             ck.violation("%s at position %d: stderr does not carry the cause (%s): %r" % (kind, pos, frag, err[:300]), rep)
+        elif not frag:
+            # the cause is gopatch's own wording: require that something is said beyond naming the file
+            line = next((l for l in err.split("\n") if "d%d/f.go" % pos in l), "")
+            if len(line.replace(bad_path, "").replace("d%d/f.go" % pos, "").strip(' :"')) < 8:
+                ck.violation("%s at position %d: stderr names the file but gives no cause: %r" % (kind, pos, err[:300]), rep)
         for j in range(4):
             rel = "d%d/f.go" % j
             a = ob["after"].get(rel)
@@ -264,6 +270,25 @@ def main():
             if len(v) > l and rel.encode() not in ob["stderr"]:
                 ck.violation("write of %s failed under a %d-byte limit but stderr does not name it" % (rel, l), rep)
 
+    # ---------------- (B2) the temporary file cannot be created (name too long) AND writes are cut short:
+    # the target must keep its original bytes (no fallback to writing in place)
+    longname = "l/" + "x" * 245 + ".go"
+    files2 = {"a/f.go": big_src(0, N), longname: big_src(1, N), "z/f.go": big_src(2, N)}
+    news2 = {"a/f.go": big_new(0, N), longname: big_new(1, N), "z/f.go": big_new(2, N)}
+    lim2 = [0, 512, 1024, 4096, len(news2[longname]) - 1, 1 << 20] + (list(range(0, len(news2[longname]) + 200, 211)) if thorough else [])
+    lim2_scs = [(Scenario(PATCHES[:1], files2, {}, name="longname fsize=%d" % l), l) for l in sorted(set(lim2))]
+    for (sc, l), ob in zip(lim2_scs, vlib.pmap(lambda x: run_limited(*x), lim2_scs)):
+        ck.count(("fsize-longname", l)); ck.tally("phase", "fsize-limit + temp name too long")
+        rep = dict(name=sc.name, limit=l, rc=ob["rc"], stderr=ob["stderr"].decode("utf-8", "replace")[:1000], sizes={k[:20]: len(v) for k, v in news2.items()})
+        bad = go_files_state(ob, news2)
+        if bad:
+            ck.violation("temporary file cannot be created (name too long) and writes are limited to %d bytes: a Go file is neither original nor complete: %s"
+                         % (l, [(b[0][:24],) + tuple(b[1:]) for b in bad]), rep)
+        if ob["rc"] == 0:
+            ck.violation("a file could not be written (temporary name too long) but the exit status is 0", rep)
+        if b"xxxxxxxx" not in ob["stderr"]:
+            ck.violation("a file could not be written (temporary name too long) but stderr does not name it: %r" % ob["stderr"][:200], rep)
+
     # ---------------- (C) system-call traces: conformance with the protocol + safety of every prefix (in the model)
     injections = [None, "write:error=ENOSPC:when=1", "write:error=ENOSPC:when=2", "write:error=EIO:when=3",
                   "fchmod:error=EPERM:when=1", "fchmod:error=EPERM:when=2", "renameat:error=EACCES:when=1",
@@ -283,7 +308,10 @@ def main():
         bad = go_files_state(ob, small_new)
         if bad:
             ck.violation("after injected fault %s a Go file is neither original nor complete: %s" % (inj, bad), rep)
-        if inj and "error" in inj and ob["rc"] == 0:
+        fired = any("INJECTED" in (c[4] or "") for c in ob["calls"])
+        if inj:
+            ck.tally("injection", "fired" if fired else "never reached (the run makes fewer such calls)")
+        if inj and "error" in inj and fired and ob["rc"] == 0:
             ck.violation("injected fault %s was not reported (exit 0)" % inj, rep)
         case, ws = fs_case(ob, sc, ops)
         if case is None:
